@@ -516,3 +516,5 @@ func (pe *probeExec) Apply(inner func(failsafe.Execution[R]) *common.PolicyResul
 		return r
 	}
 }
+
+func quiet(f func()) { simrt.Quiet(f) }
